@@ -153,6 +153,7 @@ def run(tier):
     tmp = tempfile.mkdtemp(prefix='c19_')
     alive = collections.deque(maxlen=3)      # databases and datasets of the previous cases stay alive: databases are independent of each other
     for ci in range(N):
+        common.tick()
         parts = gen_desc(r)
         reqs = gen_requests(r, parts)
         src = copy.deepcopy(parts)
